@@ -91,11 +91,17 @@ def HState.likeOracle (s : HState) : LikeOracle :=
   { valid := fun p ci => match s.likeO.find? (fun e => e.1 == p && e.2.1 == ci) with
       | some (_, _, some _) => true
       | _ => false
-    isMatch := fun p ci x => match s.likeO.find? (fun e => e.1 == p && e.2.1 == ci) with
-      | some (_, _, some tbl) => match tbl.find? (·.1 == x) with
-        | some (_, m) => m
-        | none => false
-      | _ => false }
+    -- one pattern may be annotated several times in one call (the same pattern applied to two columns): each annotation
+    -- lists the cells of ITS column, so the answer for a cell is taken from whichever annotation mentions the cell
+    isMatch := fun p ci x =>
+      match s.likeO.findSome? (fun e =>
+          if e.1 == p && e.2.1 == ci then
+            match e.2.2 with
+            | some tbl => (tbl.find? (·.1 == x)).map (·.2)
+            | none => none
+          else none) with
+      | some m => m
+      | none => false }
 
 def HState.upperOracle (s : HState) : UpperOracle :=
   fun x => match s.upperO.find? (·.1 == x) with
